@@ -284,13 +284,17 @@ def case_log(seed, out, spec, wd):
                 out.violation('log:text', 'hit %d: python logger got %r, the template renders to %r' % (
                     h, msg, exp_msg), witness, replay)
                 return
-            tail = msg[len(exp_msg):]
-            m = re.search(r'ctx=(\S+) tracepoint=(\S+)$', tail)
-            if not m or m.group(2) != tp_id:
-                mech = 'log:labels-swapped' if m and m.group(1) == tp_id else 'log:wrong-tracepoint-id'
+            tail = msg[len(exp_msg):] if msg.startswith(exp_msg) else msg
+            # the default logger labels the two ids; whatever the exact layout, an id that follows the word
+            # "tracepoint" must be the tracepoint's and one that follows "ctx"/"context" must not be
+            m_tp = re.search(r'tracepoint\W{0,3}([\w-]+)', tail)
+            m_ctx = re.search(r'(?:ctx|context)\W{0,3}([\w-]+)', tail)
+            if tp_id not in tail or (m_tp and m_tp.group(1) != tp_id) or (m_ctx and m_ctx.group(1) == tp_id):
+                mech = 'log:labels-swapped' if (m_ctx and m_ctx.group(1) == tp_id) else 'log:wrong-tracepoint-id'
                 out.violation(mech, 'python logger line ends %r for tracepoint %r' % (tail, tp_id), witness, replay)
                 return
-            ctx_id = m.group(1)
+            ids = re.findall(r'[0-9a-f]{8}-[0-9a-f]{4}-[0-9a-f]{4}-[0-9a-f]{4}-[0-9a-f]{12}', tail)
+            ctx_id = m_ctx.group(1) if m_ctx else (ids[0] if ids else None)
             compared += 1
             out.count('python_plugin_messages')
             out.count('label_checks')
@@ -318,7 +322,7 @@ def case_log(seed, out, spec, wd):
             for mech, what in probs:
                 out.violation(mech, what, witness, replay)
             attrs = dict(s.attributes.items())
-            if attrs.get('tracepoint') != tp_id or attrs.get('context') != ctx_id:
+            if attrs.get('tracepoint') != tp_id or (ctx_id is not None and attrs.get('context') != ctx_id):
                 out.violation('log:snapshot-labels', 'snapshot attributes context=%r tracepoint=%r, logger was given '
                                                      'context %r for tracepoint %r' % (attrs.get('context'),
                                                                                       attrs.get('tracepoint'), ctx_id,
